@@ -578,93 +578,126 @@ Qed.
 Lemma no_sel_key_read_tail q qs : no_sel_key_read (q :: qs) -> no_sel_key_read qs.
 Proof. destruct q; cbn; tauto. Qed.
 
-(* a path diverging from the one along which a fresh node was populated finds nothing in the fresh node *)
-Lemma lookup_fresh_none {A} cr ps qs (k : node -> res (node * A)) leaf y r :
-  diverges ps qs ->
-  walk cr ps k (empty_of (kind_before (hd_error ps) leaf)) = Ok (y, r) ->
-  lookup qs (empty_of (kind_before (hd_error ps) leaf)) = Ok None.
-Proof.
-  intros D W. destruct D as [p q ps qs Hpq|p ps qs D].
-  - destruct Hpq; cbn in *; try reflexivity. destruct j; reflexivity.
-  - destruct p; cbn in *; try reflexivity; try discriminate. destruct i; reflexivity.
-Qed.
+(* The frame law, in the general form: q diverges from the write path p at some part, or agrees with all
+   of p and continues with a rest on which the continuation k itself has the frame property. *)
+Section FrameEnd.
+  Context {A : Type}.
+  Variable k : node -> res (node * A).
+  Variable ok_end : list part -> Prop.
+  Hypothesis E1 : forall qs x x' a, ok_end qs -> k x = Ok (x', a) -> lookup qs x' = lookup qs x.
+  Hypothesis E2 : forall qs leaf x' a, ok_end qs -> k (empty_of leaf) = Ok (x', a) ->
+                                       lookup qs (empty_of leaf) = Ok None.
+  Hypothesis E3 : forall qs nm v x' a, ok_end qs -> k (sel_new nm v) = Ok (x', a) ->
+                                       match qs with PKey name :: _ => name <> nm | _ => True end ->
+                                       lookup qs (sel_new nm v) = Ok None.
 
-Lemma lookup_sel_new_none {A} cr ps qs (k : node -> res (node * A)) nm v y r :
-  diverges ps qs ->
-  walk cr ps k (sel_new nm v) = Ok (y, r) ->
-  match qs with PKey name :: _ => name <> nm | _ => True end ->
-  lookup qs (sel_new nm v) = Ok None.
-Proof.
-  intros D W NK. unfold sel_new in *. destruct (String.eqb nm "") eqn:E.
-  - destruct D as [p q ps qs Hpq|p ps qs D]; destruct p; cbn in W; discriminate.
-  - assert (forall b, b <> nm -> String.eqb nm b = false) as Hne
-        by (intros b Hb; apply String.eqb_neq; congruence).
-    destruct D as [p q ps qs Hpq|p ps qs D].
-    + destruct Hpq; cbn in W; try discriminate. unfold lookup; cbn. now rewrite (Hne _ NK).
-    + destruct p; cbn in W; try discriminate. unfold lookup; cbn. now rewrite (Hne _ NK).
-Qed.
+  (* a path diverging from the one along which a fresh node was populated finds nothing in the fresh node *)
+  Lemma lookup_fresh_none cr ps qs leaf y r :
+    diverges_end ok_end ps qs ->
+    walk cr ps k (empty_of (kind_before (hd_error ps) leaf)) = Ok (y, r) ->
+    lookup qs (empty_of (kind_before (hd_error ps) leaf)) = Ok None.
+  Proof.
+    intros D W. destruct D as [qs Hq|p q ps qs Hpq|p ps qs D].
+    - cbn in *. destruct (k (empty_of leaf)) as [[x' a]| | |] eqn:K; cbn in W; inv W. eapply E2; eauto.
+    - destruct Hpq; cbn in *; try reflexivity. destruct j; reflexivity.
+    - destruct p; cbn in *; try reflexivity; try discriminate. destruct i; reflexivity.
+  Qed.
+
+  Lemma lookup_sel_new_none cr ps qs nm v y r :
+    diverges_end ok_end ps qs ->
+    walk cr ps k (sel_new nm v) = Ok (y, r) ->
+    match qs with PKey name :: _ => name <> nm | _ => True end ->
+    lookup qs (sel_new nm v) = Ok None.
+  Proof.
+    intros D W NK.
+    destruct D as [qs Hq|p q ps qs Hpq|p ps qs D].
+    { cbn in W. destruct (k (sel_new nm v)) as [[x' a]| | |] eqn:K; cbn in W; inv W. eapply E3; eauto. }
+    all: unfold sel_new in *; destruct (String.eqb nm "") eqn:E.
+    - destruct p; cbn in W; discriminate.
+    - assert (forall b, b <> nm -> String.eqb nm b = false) as Hne
+          by (intros b Hb; apply String.eqb_neq; congruence).
+      destruct Hpq; cbn in W; try discriminate. unfold lookup; cbn. now rewrite (Hne _ NK).
+    - destruct p; cbn in W; discriminate.
+    - assert (forall b, b <> nm -> String.eqb nm b = false) as Hne
+          by (intros b Hb; apply String.eqb_neq; congruence).
+      destruct p; cbn in W; try discriminate. unfold lookup; cbn. now rewrite (Hne _ NK).
+  Qed.
+
+  Lemma walk_frame_end cr ps :
+    stable ps k ->
+    forall qs n n' r, diverges_end ok_end ps qs -> (no_sel_key_read qs \/ lookup qs n <> Ok None) ->
+    walk cr ps k n = Ok (n', r) -> lookup qs n' = lookup qs n.
+  Proof.
+    induction ps as [|p ps IH]; intros S qs n n' r D SC H.
+    { inversion D; subst. cbn in H. destruct (k n) as [[x' a]| | |] eqn:K; cbn in H; inv H. eapply E1; eauto. }
+    pose proof (stable_tail _ _ _ S) as S'.
+    inversion D as [|p0 q ps0 qs' Hpq|p0 ps0 qs' D']; subst; clear D.
+    - (* the paths part here *)
+      destruct (child p n) as [x|] eqn:C.
+      + rewrite (walk_found _ _ _ _ _ _ C) in H.
+        destruct (walk cr ps k x) as [[x' r']| | |] eqn:W; cbn in H; inv H.
+        apply lookup_cons_congr.
+        * eapply child_plug_apart; eauto. eapply keeps_after_walk; eauto.
+        * destruct Hpq; destruct n; cbn in C |- *; try discriminate; auto.
+          destruct (find_index (sel_match nm v) es); [exact I|discriminate].
+      + destruct (walk_missing _ _ _ _ _ _ _ C H) as
+          [[-> _]|[(name & kvs & leaf & y & -> & -> & -> & F & W & ->)
+                  |[(nm & v & es & leaf & y & -> & -> & -> & F & W & ->)
+                   |(nm & v & leaf & y & -> & N & _ & _ & ->)]]]; try reflexivity.
+        * inversion Hpq; subst. apply lookup_cons_congr; [|exact I].
+          cbn. now apply find_field_app_other.
+        * inversion Hpq; subst. apply lookup_cons_congr; [|exact I].
+          assert (M : sel_match nm v y = true).
+          { eapply sel_stable; [exact W|apply sel_match_sel_new|]. cbn in S; tauto. }
+          cbn. rewrite (find_index_app_other _ _ _ (sel_match_excl _ _ _ _ M H3)).
+          destruct (find_index (sel_match nm w) es) as [j|] eqn:G; [|reflexivity].
+          destruct (find_index_some _ _ _ G) as [e [He _]].
+          rewrite He. eapply nth_error_app_old; eauto.
+    - (* common first part *)
+      destruct (child p n) as [x|] eqn:C.
+      + rewrite (walk_found _ _ _ _ _ _ C) in H.
+        destruct (walk cr ps k x) as [[x' r']| | |] eqn:W; cbn in H; inv H.
+        assert (Kp : keeps p x') by (eapply keeps_after_walk; eauto).
+        rewrite (lookup_found _ _ _ _ (child_plug _ _ _ _ C Kp)), (lookup_found _ _ _ _ C).
+        eapply IH; eauto.
+        destruct SC as [SC|SC]; [left; eapply no_sel_key_read_tail; eauto|right].
+        now rewrite (lookup_found _ _ _ _ C) in SC.
+      + destruct (walk_missing _ _ _ _ _ _ _ C H) as
+          [[-> _]|[(name & kvs & leaf & y & -> & -> & -> & F & W & ->)
+                  |[(nm & v & es & leaf & y & -> & -> & -> & F & W & ->)
+                   |(nm & v & leaf & y & -> & N & _ & _ & ->)]]]; try reflexivity.
+        * assert (L0 : lookup (PKey name :: qs') (Map kvs) = Ok None) by (unfold lookup; cbn; now rewrite F).
+          destruct SC as [SC|SC]; [|congruence].
+          rewrite L0.
+          assert (C1 : child (PKey name) (Map (kvs ++ [(name, y)])) = Some y)
+            by (cbn; now apply find_field_app_same).
+          rewrite (lookup_found _ _ _ _ C1).
+          rewrite (IH S' qs' _ _ _ D' (or_introl (no_sel_key_read_tail _ _ SC)) W).
+          eapply lookup_fresh_none; eauto.
+        * assert (L0 : lookup (PSel nm v :: qs') (Seq es) = Ok None) by (unfold lookup; cbn; now rewrite F).
+          destruct SC as [SC|SC]; [|congruence].
+          rewrite L0.
+          assert (M : sel_match nm v y = true).
+          { eapply sel_stable; [exact W|apply sel_match_sel_new|]. cbn in S; tauto. }
+          assert (C1 : child (PSel nm v) (Seq (es ++ [y])) = Some y).
+          { cbn. rewrite (find_index_app_same _ _ _ F M). apply nth_error_app_last. }
+          rewrite (lookup_found _ _ _ _ C1).
+          rewrite (IH S' qs' _ _ _ D' (or_introl (no_sel_key_read_tail _ _ SC)) W).
+          eapply lookup_sel_new_none; eauto.
+          cbn in SC. destruct qs' as [|[] ?]; tauto.
+  Qed.
+End FrameEnd.
+
+Lemma diverges_diverges_end ps qs : diverges ps qs -> diverges_end (fun _ => False) ps qs.
+Proof. induction 1; [now apply dve_here|now apply dve_later]. Qed.
 
 Lemma walk_frame {A} cr ps (k : node -> res (node * A)) :
   stable ps k ->
   forall qs n n' r, diverges ps qs -> (no_sel_key_read qs \/ lookup qs n <> Ok None) ->
   walk cr ps k n = Ok (n', r) -> lookup qs n' = lookup qs n.
 Proof.
-  induction ps as [|p ps IH]; intros S qs n n' r D SC H; [inversion D|].
-  pose proof (stable_tail _ _ _ S) as S'.
-  inversion D as [p0 q ps0 qs' Hpq|p0 ps0 qs' D']; subst; clear D.
-  - (* the paths part here *)
-    destruct (child p n) as [x|] eqn:C.
-    + rewrite (walk_found _ _ _ _ _ _ C) in H.
-      destruct (walk cr ps k x) as [[x' r']| | |] eqn:W; cbn in H; inv H.
-      apply lookup_cons_congr.
-      * eapply child_plug_apart; eauto. eapply keeps_after_walk; eauto.
-      * destruct Hpq; destruct n; cbn in C |- *; try discriminate; auto.
-        destruct (find_index (sel_match nm v) es); [exact I|discriminate].
-    + destruct (walk_missing _ _ _ _ _ _ _ C H) as
-        [[-> _]|[(name & kvs & leaf & y & -> & -> & -> & F & W & ->)
-                |[(nm & v & es & leaf & y & -> & -> & -> & F & W & ->)
-                 |(nm & v & leaf & y & -> & N & _ & _ & ->)]]]; try reflexivity.
-      * inversion Hpq; subst. apply lookup_cons_congr; [|exact I].
-        cbn. now apply find_field_app_other.
-      * inversion Hpq; subst. apply lookup_cons_congr; [|exact I].
-        assert (M : sel_match nm v y = true).
-        { eapply sel_stable; [exact W|apply sel_match_sel_new|]. cbn in S; tauto. }
-        cbn. rewrite (find_index_app_other _ _ _ (sel_match_excl _ _ _ _ M H3)).
-        destruct (find_index (sel_match nm w) es) as [j|] eqn:G; [|reflexivity].
-        destruct (find_index_some _ _ _ G) as [e [He _]].
-        rewrite He. eapply nth_error_app_old; eauto.
-  - (* common first part *)
-    destruct (child p n) as [x|] eqn:C.
-    + rewrite (walk_found _ _ _ _ _ _ C) in H.
-      destruct (walk cr ps k x) as [[x' r']| | |] eqn:W; cbn in H; inv H.
-      assert (Kp : keeps p x') by (eapply keeps_after_walk; eauto).
-      rewrite (lookup_found _ _ _ _ (child_plug _ _ _ _ C Kp)), (lookup_found _ _ _ _ C).
-      eapply IH; eauto.
-      destruct SC as [SC|SC]; [left; eapply no_sel_key_read_tail; eauto|right].
-      now rewrite (lookup_found _ _ _ _ C) in SC.
-    + destruct (walk_missing _ _ _ _ _ _ _ C H) as
-        [[-> _]|[(name & kvs & leaf & y & -> & -> & -> & F & W & ->)
-                |[(nm & v & es & leaf & y & -> & -> & -> & F & W & ->)
-                 |(nm & v & leaf & y & -> & N & _ & _ & ->)]]]; try reflexivity.
-      * assert (L0 : lookup (PKey name :: qs') (Map kvs) = Ok None) by (unfold lookup; cbn; now rewrite F).
-        destruct SC as [SC|SC]; [|congruence].
-        rewrite L0.
-        assert (C1 : child (PKey name) (Map (kvs ++ [(name, y)])) = Some y)
-          by (cbn; now apply find_field_app_same).
-        rewrite (lookup_found _ _ _ _ C1).
-        rewrite (IH S' qs' _ _ _ D' (or_introl (no_sel_key_read_tail _ _ SC)) W).
-        eapply lookup_fresh_none; eauto.
-      * assert (L0 : lookup (PSel nm v :: qs') (Seq es) = Ok None) by (unfold lookup; cbn; now rewrite F).
-        destruct SC as [SC|SC]; [|congruence].
-        rewrite L0.
-        assert (M : sel_match nm v y = true).
-        { eapply sel_stable; [exact W|apply sel_match_sel_new|]. cbn in S; tauto. }
-        assert (C1 : child (PSel nm v) (Seq (es ++ [y])) = Some y).
-        { cbn. rewrite (find_index_app_same _ _ _ F M). apply nth_error_app_last. }
-        rewrite (lookup_found _ _ _ _ C1).
-        rewrite (IH S' qs' _ _ _ D' (or_introl (no_sel_key_read_tail _ _ SC)) W).
-        eapply lookup_sel_new_none; eauto.
-        cbn in SC. destruct qs' as [|[] ?]; tauto.
+  intros S qs n n' r D. apply (walk_frame_end k (fun _ => False)); try tauto.
+  now apply diverges_diverges_end.
 Qed.
 
 (* ---------- absent children without creation; composition of lookups ---------- *)
@@ -773,3 +806,348 @@ Proof.
   destruct (walk cr ps k n) as [[d r]| | |], (walk cr ps k' n) as [[d' r']| | |]; cbn in H; try tauto.
   destruct H; subst; auto.
 Qed.
+
+(* ====================================================================================================
+   Instances: the operations the property talks about (put / put_scalar / clear_at / lookup)
+   ==================================================================================================== *)
+Section Instances.
+  Variable nonstr : string -> bool.
+
+  Lemma with_style_style_of v : with_style (style_of v) v = v.
+  Proof. destruct v; reflexivity. Qed.
+
+  Lemma quote11_with_style v : exists s, quote11 nonstr v = with_style s v.
+  Proof.
+    destruct v as [t s v| |]; try (exists SPlain; reflexivity).
+    destruct s; try (eexists; reflexivity).
+    destruct t; cbn; try (exists SPlain; reflexivity);
+      destruct (nonstr v); (exists SDouble; reflexivity) || (exists SPlain; reflexivity).
+  Qed.
+
+  Lemma with_style_idem s v : with_style (style_of (with_style s v)) v = with_style s v.
+  Proof. destruct v; reflexivity. Qed.
+
+  Lemma quote11_idem v : with_style (style_of (quote11 nonstr v)) v = quote11 nonstr v.
+  Proof. destruct (quote11_with_style v) as [s ->]. apply with_style_idem. Qed.
+
+  Lemma is_null_with_style s v : is_null (with_style s v) = is_null v.
+  Proof. destruct v; reflexivity. Qed.
+
+  Lemma unstyle_with_style s v : unstyle (with_style s v) = unstyle v.
+  Proof. destruct v; reflexivity. Qed.
+
+  (* FieldSetter with a non-null value, on a non-null node: the node is a mapping and the field now holds v
+     (up to the style kept from the old value / forced by the YAML 1.1 quoting) *)
+  Lemma set_field_spec name v x x' :
+    is_null v = false -> set_field nonstr name (Some v) false x = Ok x' ->
+    (is_null x = true /\ x' = x) \/
+    (exists kvs s, x = Map kvs /\
+       ((exists old, find_field name kvs = Some old /\ s = style_of old /\
+                     x' = Map (set_first name (with_style s v) kvs))
+        \/ (find_field name kvs = None /\ with_style s v = quote11 nonstr v /\
+            x' = Map (kvs ++ [(name, with_style s v)])))).
+  Proof.
+    intros Nv H. unfold set_field in H. rewrite Nv in H. cbn in H.
+    destruct x as [t s0 v0|kvs|es].
+    - destruct (is_null (Scalar t s0 v0)) eqn:N; inv H. auto.
+    - right. destruct (find_field name kvs) as [old|] eqn:F; inv H.
+      + exists kvs, (style_of old). split; auto. left. exists old. auto.
+      + destruct (quote11_with_style v) as [s Hs]. exists kvs, s. split; auto. right.
+        rewrite <- Hs. auto.
+    - discriminate.
+  Qed.
+
+  Lemma set_field_keeps_value name v : k_keeps_value (k_set_field nonstr name v).
+  Proof.
+    intros x x' a H. unfold k_set_field in H.
+    destruct (set_field nonstr name (Some v) false x) as [m| | |] eqn:E; cbn in H; inv H.
+    unfold set_field in E.
+    destruct (is_null v && negb false).
+    - destruct x as [t s0 v0|kvs|es]; cbn in E.
+      + destruct t; inv E; reflexivity.
+      + inv E; reflexivity.
+      + discriminate.
+    - destruct x as [t s0 v0|kvs|es]; cbn in E.
+      + destruct t; inv E; reflexivity.
+      + destruct (find_field name kvs); inv E; reflexivity.
+      + discriminate.
+  Qed.
+
+  Lemma set_field_keeps_sel name v nm w : nm <> name -> k_keeps_sel (k_set_field nonstr name v) nm w.
+  Proof.
+    intros Hne x x' a H M.
+    pose proof (set_field_keeps_value name v x x' a H) as HV.
+    unfold sel_match in *. destruct (String.eqb nm ""); [now rewrite HV|].
+    destruct x as [|kvs|]; try discriminate.
+    unfold k_set_field in H.
+    destruct (set_field nonstr name (Some v) false (Map kvs)) as [m| | |] eqn:E; cbn in H; inv H.
+    assert (Hne' : name <> nm) by congruence.
+    unfold set_field in E. destruct (is_null v && negb false); cbn in E.
+    - inv E. now rewrite (find_field_remove_first_other _ _ _ Hne').
+    - destruct (find_field name kvs); inv E.
+      + now rewrite (find_field_set_first_other _ _ _ _ Hne').
+      + now rewrite (find_field_app_other _ _ _ _ Hne').
+  Qed.
+
+  Lemma stable_put_sound ps name v : stable_put ps name = true -> stable ps (k_set_field nonstr name v).
+  Proof.
+    induction ps as [|p ps IH]; intros H; [exact I|].
+    assert (Ht : ps <> [] -> stable_put ps name = true).
+    { intros Hps. destruct ps as [|p2 ps]; [congruence|]. destruct p; exact H. }
+    destruct p; try (destruct ps; [exact I|apply IH; apply Ht; discriminate]).
+    cbn [stable]. destruct ps as [|p2 ps].
+    - split; [|exact I]. cbn. apply set_field_keeps_sel.
+      cbn in H. apply negb_true_iff in H. now apply String.eqb_neq.
+    - split; [|apply IH; apply Ht; discriminate].
+      destruct p2; cbn; auto. destruct ps; auto. intros _ _. apply set_field_keeps_value.
+  Qed.
+
+  Lemma set_scalar_keeps_sel v nm w : nm <> "" -> k_keeps_sel (k_set_scalar v) nm w.
+  Proof.
+    intros Hne x x' a H M. unfold sel_match in M.
+    apply String.eqb_neq in Hne. rewrite Hne in M.
+    destruct x as [|kvs|]; discriminate.
+  Qed.
+
+  Lemma stable_put_scalar_sound ps v : stable_put_scalar ps = true -> stable ps (k_set_scalar v).
+  Proof.
+    induction ps as [|p ps IH]; intros H; [exact I|].
+    destruct p; try (destruct ps as [|p2 ps]; [exact I|apply IH; destruct p2; exact H]).
+    (* PSel *)
+    cbn [stable]. destruct ps as [|p2 ps].
+    - split; [|exact I]. cbn. apply set_scalar_keeps_sel.
+      cbn in H. apply negb_true_iff in H. now apply String.eqb_neq.
+    - destruct p2; try (split; [exact I|apply IH; exact H]).
+      + (* PSel ; PKey *)
+        destruct ps as [|p3 ps].
+        * split; [|exact I]. cbn. intros -> Hn. cbn in H.
+          rewrite String.eqb_refl in H. cbn in H. apply String.eqb_eq in H. contradiction.
+        * split; [exact I|]. apply IH. exact H.
+  Qed.
+
+  (* ---------- PUT-GET ---------- *)
+  Lemma walk_get_lookup ps n x : walk None ps k_get n = Ok (n, Some x) -> lookup ps n = Ok (Some x).
+  Proof. intros H. unfold lookup. now rewrite H. Qed.
+
+  Lemma put_get ps name v n n' :
+    is_null v = false -> stable_put ps name = true -> no_null_path ps n = true ->
+    put nonstr ps name v n = Ok (n', Some tt) ->
+    exists s, lookup (ps ++ [PKey name]) n' = Ok (Some (with_style s v)).
+  Proof.
+    intros Nv S NN H. unfold put in H.
+    destruct (walk_put_get _ _ _ (stable_put_sound _ _ v S) _ _ _ NN H) as [x [x' [Nx [K G]]]].
+    unfold k_set_field in K.
+    destruct (set_field nonstr name (Some v) false x) as [m| | |] eqn:E; cbn in K; inv K.
+    rewrite lookup_app, (walk_get_lookup _ _ _ G).
+    destruct (set_field_spec _ _ _ _ Nv E) as [[N _]|(kvs & s & -> & [(old & F & Hs & ->)|(F & Q & ->)])];
+      [congruence| |]; exists s; unfold lookup; cbn.
+    - now rewrite (find_field_set_first_same _ _ _ _ F).
+    - now rewrite (find_field_app_same _ _ _ F).
+  Qed.
+
+  Lemma put_scalar_get ps v n n' :
+    is_null v = false -> stable_put_scalar ps = true -> no_null_path ps n = true ->
+    put_scalar ps v n = Ok (n', Some tt) ->
+    exists s, lookup ps n' = Ok (Some (with_style s v)).
+  Proof.
+    intros Nv S NN H. unfold put_scalar in H.
+    destruct (walk_put_get _ _ _ (stable_put_scalar_sound _ v S) _ _ _ NN H) as [x [x' [Nx [K G]]]].
+    rewrite (walk_get_lookup _ _ _ G).
+    unfold k_set_scalar, set_scalar in K. destruct x as [t s0 v0| |]; try discriminate.
+    rewrite Nx, Nv in K. cbn in K. inv K. eauto.
+  Qed.
+
+  (* ---------- GET-PUT ---------- *)
+  Lemma get_put cr ps name v n :
+    is_null v = false -> lookup (ps ++ [PKey name]) n = Ok (Some v) ->
+    walk cr ps (k_set_field nonstr name v) n = Ok (n, Some tt).
+  Proof.
+    intros Nv L. rewrite lookup_app in L.
+    destruct (lookup ps n) as [[m|]| | |] eqn:Lm; try discriminate.
+    eapply walk_get_put; [exact Lm|].
+    unfold lookup in L. destruct m as [t s0 v0|kvs|es]; cbn in L.
+    - destruct t; discriminate.
+    - destruct (find_field name kvs) as [old|] eqn:F; [|discriminate]. cbn in L. inv L.
+      unfold k_set_field, set_field. rewrite Nv. cbn. rewrite F. cbn.
+      now rewrite with_style_style_of, (set_first_same _ _ _ F).
+    - discriminate.
+  Qed.
+
+  (* ---------- PUT-PUT ---------- *)
+  Lemma set_field_idem name v x x' :
+    is_null v = false -> k_set_field nonstr name v x = Ok (x', tt) -> k_set_field nonstr name v x' = Ok (x', tt).
+  Proof.
+    intros Nv K. unfold k_set_field in K.
+    destruct (set_field nonstr name (Some v) false x) as [m| | |] eqn:E; cbn in K; inv K.
+    destruct (set_field_spec _ _ _ _ Nv E) as [[N ->]|(kvs & s & -> & [(old & F & -> & ->)|(F & Q & ->)])].
+    - unfold k_set_field. now rewrite E.
+    - unfold k_set_field, set_field. rewrite Nv. cbn.
+      rewrite (find_field_set_first_same _ _ _ _ F). cbn.
+      now rewrite with_style_idem, set_first_set_first.
+    - unfold k_set_field, set_field. rewrite Nv. cbn.
+      rewrite (find_field_app_same _ _ _ F). cbn.
+      now rewrite with_style_idem, (set_first_app_same _ _ _ _ F).
+  Qed.
+
+  Lemma put_idempotent cr ps name v n n1 :
+    is_null v = false -> stable_put ps name = true -> no_null_path ps n = true ->
+    walk cr ps (k_set_field nonstr name v) n = Ok (n1, Some tt) ->
+    walk cr ps (k_set_field nonstr name v) n1 = Ok (n1, Some tt).
+  Proof.
+    intros Nv S NN H.
+    rewrite (walk_fusion _ _ _ (k_set_field nonstr name v) (stable_put_sound _ _ v S) _ _ _ NN H).
+    rewrite <- H. apply walk_ext. intros x. unfold kseq.
+    destruct (k_set_field nonstr name v x) as [[x1 []]| | |] eqn:K; cbn; auto.
+    rewrite (set_field_idem _ _ _ _ Nv K). reflexivity.
+  Qed.
+
+  (* last write wins, up to the style the stored scalar inherits from what was there before *)
+  Definition unstyle_eq (a b : node) : Prop := unstyle a = unstyle b.
+
+  Lemma unstyle_set_first name y y' kvs :
+    unstyle y = unstyle y' ->
+    map (fun kv => (fst kv, unstyle (snd kv))) (set_first name y kvs) =
+    map (fun kv => (fst kv, unstyle (snd kv))) (set_first name y' kvs).
+  Proof.
+    intros H. induction kvs as [|[k v] t IH]; cbn; [reflexivity|].
+    destruct (String.eqb k name); cbn; [now rewrite H|now rewrite IH].
+  Qed.
+
+  Lemma unstyle_replace_nth i y y' es :
+    unstyle y = unstyle y' -> map unstyle (replace_nth i y es) = map unstyle (replace_nth i y' es).
+  Proof.
+    intros H. revert i; induction es as [|e t IH]; intros [|i]; cbn; auto; [now rewrite H|now rewrite IH].
+  Qed.
+
+  Lemma unstyle_plug p n y y' : unstyle_eq y y' -> unstyle_eq (plug p n y) (plug p n y').
+  Proof.
+    unfold unstyle_eq. intros H. destruct p, n; cbn; auto.
+    - now rewrite (unstyle_set_first _ _ _ _ H).
+    - now rewrite (unstyle_replace_nth _ _ _ _ H).
+    - now rewrite (unstyle_replace_nth _ _ _ _ H).
+    - destruct (find_index (sel_match nm v) es); auto. cbn. now rewrite (unstyle_replace_nth _ _ _ _ H).
+  Qed.
+
+  Definition res_unstyle_eq {B} (a b : res (node * B)) : Prop := rel_res unstyle_eq a b.
+
+  Lemma put_last_wins cr ps name v1 v2 n n1 :
+    is_null v1 = false -> is_null v2 = false ->
+    stable_put ps name = true -> no_null_path ps n = true ->
+    walk cr ps (k_set_field nonstr name v1) n = Ok (n1, Some tt) ->
+    res_unstyle_eq (walk cr ps (k_set_field nonstr name v2) n1) (walk cr ps (k_set_field nonstr name v2) n).
+  Proof.
+    intros N1 N2 S NN H.
+    rewrite (walk_fusion _ _ _ (k_set_field nonstr name v2) (stable_put_sound _ _ v1 S) _ _ _ NN H).
+    apply walk_rel.
+    - intros x; reflexivity.
+    - apply unstyle_plug.
+    - unfold unstyle_eq. intros kvs nm y y' E. cbn. rewrite !map_app. cbn. now rewrite E.
+    - unfold unstyle_eq. intros es y y' E. cbn. rewrite !map_app. cbn. now rewrite E.
+    - intros x. unfold kseq.
+      destruct (k_set_field nonstr name v1 x) as [[x1 []]| | |] eqn:K1.
+      + unfold k_set_field in K1.
+        destruct (set_field nonstr name (Some v1) false x) as [m| | |] eqn:E; cbn in K1; inv K1.
+        cbn [bind fst].
+        destruct (set_field_spec _ _ _ _ N1 E) as [[N ->]|(kvs & s & -> & [(old & F & -> & ->)|(F & Q & ->)])].
+        * destruct (k_set_field nonstr name v2 x) as [[? ?]| | |]; cbn; auto. split; reflexivity.
+        * unfold k_set_field, set_field. rewrite N2. cbn.
+          rewrite (find_field_set_first_same _ _ _ _ F), F. cbn. split; auto.
+          unfold unstyle_eq. cbn. rewrite set_first_set_first.
+          f_equal. apply unstyle_set_first. now rewrite !unstyle_with_style.
+        * unfold k_set_field, set_field. rewrite N2. cbn.
+          rewrite (find_field_app_same _ _ _ F), F. cbn. split; auto.
+          unfold unstyle_eq. cbn. rewrite (set_first_app_same _ _ _ _ F), !map_app. cbn.
+          destruct (quote11_with_style v2) as [s2 ->]. now rewrite !unstyle_with_style.
+      + (* first write errs: so does the second (same node class) *)
+        unfold k_set_field, set_field in *. rewrite N1 in K1. rewrite N2. cbn in *.
+        destruct x as [t s0 v0|kvs|es]; cbn in *.
+        * destruct t; cbn in *; try discriminate; auto.
+        * destruct (find_field name kvs); discriminate.
+        * exact I.
+      + unfold k_set_field, set_field in K1. rewrite N1 in K1. cbn in K1.
+        destruct x as [t s0 v0|kvs|es]; cbn in K1; try discriminate.
+        * destruct t; discriminate.
+        * destruct (find_field name kvs); discriminate.
+      + unfold k_set_field, set_field in K1. rewrite N1 in K1. cbn in K1.
+        destruct x as [t s0 v0|kvs|es]; cbn in K1; try discriminate.
+        * destruct t; discriminate.
+        * destruct (find_field name kvs); discriminate.
+  Qed.
+
+  (* ---------- FRAME for put ---------- *)
+  Definition sibling_of (name : string) (qs : list part) : Prop :=
+    exists b rest, qs = PKey b :: rest /\ b <> name.
+
+  Lemma diverges_put_end ps name qs :
+    diverges (ps ++ [PKey name]) qs -> diverges_end (sibling_of name) ps qs.
+  Proof.
+    revert qs; induction ps as [|p ps IH]; intros qs D; cbn in D.
+    - inversion D as [p0 q ps0 qs' Hpq|p0 ps0 qs' D']; subst.
+      + inversion Hpq; subst. apply dve_end. exists b, qs'. split; auto.
+      + inversion D'.
+    - inversion D as [p0 q ps0 qs' Hpq|p0 ps0 qs' D']; subst.
+      + now apply dve_here.
+      + apply dve_later. now apply IH.
+  Qed.
+
+  Lemma set_field_cases name v x x' a :
+    k_set_field nonstr name v x = Ok (x', a) ->
+    (is_null x = true /\ x' = x) \/
+    (exists kvs kvs', x = Map kvs /\ x' = Map kvs' /\ forall b, b <> name -> find_field b kvs' = find_field b kvs).
+  Proof.
+    intros H. unfold k_set_field in H.
+    destruct (set_field nonstr name (Some v) false x) as [m| | |] eqn:E; cbn in H; inv H.
+    unfold set_field in E. destruct (is_null v && negb false); cbn in E.
+    - destruct x as [t s0 v0|kvs|es]; cbn in E.
+      + destruct t; inv E. left; auto.
+      + inv E. right. exists kvs, (remove_first name kvs). repeat split; auto.
+        intros b Hb. apply find_field_remove_first_other. congruence.
+      + discriminate.
+    - destruct x as [t s0 v0|kvs|es]; cbn in E.
+      + destruct t; inv E. left; auto.
+      + right. destruct (find_field name kvs); inv E; eexists _, _; repeat split; auto; intros b Hb.
+        * apply find_field_set_first_other. congruence.
+        * apply find_field_app_other. congruence.
+      + discriminate.
+  Qed.
+
+  Lemma put_frame cr ps name v qs n n' r :
+    stable_put ps name = true ->
+    diverges (ps ++ [PKey name]) qs ->
+    (no_sel_key_read qs \/ lookup qs n <> Ok None) ->
+    walk cr ps (k_set_field nonstr name v) n = Ok (n', r) ->
+    lookup qs n' = lookup qs n.
+  Proof.
+    intros S D SC H.
+    apply (walk_frame_end (k_set_field nonstr name v) (sibling_of name)) with (cr := cr) (ps := ps) (r := r);
+      auto using stable_put_sound, diverges_put_end.
+    - intros q x x' a (b & rest & -> & Hb) K.
+      destruct (set_field_cases _ _ _ _ _ K) as [[_ ->]|(kvs & kvs' & -> & -> & F)]; [reflexivity|].
+      apply lookup_cons_congr; [|exact I]. cbn. now apply F.
+    - intros q leaf x' a (b & rest & -> & Hb) K.
+      destruct leaf; cbn in K |- *.
+      + destruct (set_field_cases _ _ _ _ _ K) as [[N _]|(kvs & kvs' & E & _)]; discriminate.
+      + reflexivity.
+      + destruct (set_field_cases _ _ _ _ _ K) as [[N _]|(kvs & kvs' & E & _)]; discriminate.
+    - intros q nm w x' a (b & rest & -> & Hb) K NK.
+      unfold sel_new in *. destruct (String.eqb nm "").
+      + destruct (set_field_cases _ _ _ _ _ K) as [[N _]|(kvs & kvs' & E & _)]; discriminate.
+      + unfold lookup; cbn. destruct (String.eqb nm b) eqn:E; [|reflexivity].
+        apply String.eqb_eq in E. congruence.
+  Qed.
+
+  (* ---------- ABSENT PATH: clear is a no-op ---------- *)
+  Lemma absent_clear_noop ps name n :
+    lookup (ps ++ [PKey name]) n = Ok None -> exists r, clear_at ps name n = Ok (n, r).
+  Proof.
+    intros L. rewrite lookup_app in L. unfold clear_at.
+    destruct (lookup ps n) as [[m|]| | |] eqn:Lm; try discriminate.
+    - exists (Some tt). eapply walk_get_put; [exact Lm|].
+      unfold lookup in L. destruct m as [t s0 v0|kvs|es]; cbn in L.
+      + destruct t; try discriminate. reflexivity.
+      + destruct (find_field name kvs) as [old|] eqn:F; [discriminate|].
+        unfold k_clear, clear_field. now rewrite (remove_first_absent _ _ F).
+      + discriminate.
+    - exists None. now apply lookup_none_walk.
+  Qed.
+End Instances.
